@@ -84,6 +84,7 @@ theorem C15_step_cache_ok (w : World.World) (op : Op) (h : CacheOK w) : CacheOK 
   case tractPreprocess => split; exact h; exact h
   case tractConfig => split; exact h; split; exact h; exact h
   case findTwprge => split <;> exact h
+  case fromTwprgesec => split; exact h; exact C15_fill_ok _ _ h
 
 /-- hence the invariant holds after any history -/
 theorem C15_run_cache_ok (ops : List Op) : ∀ (w : World.World), CacheOK w → CacheOK (run w ops).1 := by
@@ -224,6 +225,12 @@ theorem C15_step_cache_independent (w w' : World.World) (op : Op)
     simp only [step]
     rw [h1]
     split <;> exact ⟨rfl, hs⟩
+  | fromTwprgesec twp rge sec ns ew =>
+    simp only [step]
+    rw [h1, hl]
+    split
+    · exact ⟨rfl, hs⟩
+    · exact ⟨rfl, by simp [SameButCache, h1, h2, h3, h4]⟩
 
 /-- Whole histories: the sequence of outputs is the same whatever the cache held initially and however the
     history switches it on, off or clears it relative to another run — in particular it equals the outputs of the
